@@ -100,8 +100,19 @@ func lemmaObligations(db *ContractDB, prop string) (obls []*Obligation, err erro
 			return x.b.Const("lv!"+n, s)
 		})
 		mk("/base", uses, base, "")
-		// induction hypothesis: for this k, all values of the other variables
-		hyp := x.lemmaAxiomFixed(lm, lm.Induct, k)
+		// induction hypothesis: the statement for this k with the same values of the other
+		// variables (weak form; "induct k strong" quantifies the other variables)
+		var hyp *Term
+		if lm.Strong {
+			hyp = x.lemmaAxiomFixed(lm, lm.Induct, k)
+		} else {
+			hyp = x.lemmaTerm(lm, func(n, s string) *Term {
+				if n == lm.Induct {
+					return k
+				}
+				return x.b.Const("lv!"+n, s)
+			})
+		}
 		step := x.lemmaTerm(lm, func(n, s string) *Term {
 			if n == lm.Induct {
 				return x.b.Add(k, x.b.Int(1))
